@@ -14,6 +14,7 @@ func (e *FilterExec) Explain() string {
 }
 
 func (e *FilterExec) Filter(kvp KVPair, ctx *ExecuteCtx) (bool, error) {
+	simYield("filter.row")
 	// The per-row field cache must only hold values computed from this row:
 	// a scan filters many rows per Next call and the previous (rejected)
 	// row's field values must not be reused.
@@ -28,6 +29,7 @@ func (e *FilterExec) Filter(kvp KVPair, ctx *ExecuteCtx) (bool, error) {
 }
 
 func (e *FilterExec) FilterBatch(chunk []KVPair, ctx *ExecuteCtx) ([]bool, error) {
+	simYield("filter.batch")
 	// return e.filterBatch(chunk)
 	return e.filterChunk(chunk, ctx)
 }
@@ -223,6 +225,7 @@ func (e *BinaryOpExpr) execRegexpMatch(kv KVPair, ctx *ExecuteCtx) (bool, error)
 	if !lok || !rok {
 		return false, NewExecuteError(e.GetPos(), "~= operator left or right expression has wrong type")
 	}
+	simYield("regexp.row")
 	re, err := regexp.Compile(string(right))
 	if err != nil {
 		return false, err
@@ -541,6 +544,7 @@ func (e *NotExpr) Execute(kv KVPair, ctx *ExecuteCtx) (any, error) {
 }
 
 func (e *FunctionCallExpr) Execute(kv KVPair, ctx *ExecuteCtx) (any, error) {
+	simYield("call.row")
 	if e.Result != nil {
 		return e.Result, nil
 	}
@@ -675,6 +679,7 @@ func (e *FieldReferenceExpr) Execute(kv KVPair, ctx *ExecuteCtx) (any, error) {
 			return cval, nil
 		}
 	}
+	simYield("alias.row")
 	ret, err := e.FieldExpr.Execute(kv, ctx)
 	if err != nil {
 		return ret, err
